@@ -64,7 +64,7 @@ def run_tlc(
     meta = os.path.join(workdir, "meta_" + re.sub(r"\W", "_", cfg) + f"_{int(time.time()*1000)%100000}")
     shutil.rmtree(meta, ignore_errors=True)
     os.makedirs(meta, exist_ok=True)
-    jopts = ["-XX:+UseParallelGC", "-Xmx12g", f"-DTLA-Library={SPEC}"]
+    jopts = ["-XX:+UseParallelGC", "-Xmx12g", "-Xss512m", f"-DTLA-Library={SPEC}"]
     if dfs:
         jopts.append("-Dtlc2.tool.queue.IStateQueue=StateDeque")
     cmd = ["java", *jopts, "-cp", f"{JAR}:{DEPS}", "tlc2.TLC"]
